@@ -8,7 +8,7 @@ Docs == <<
   << AttrI("a", "str", <<>>, ""), AttrI("b", "tmpl", <<>>, "c2"), BlockI("srv", <<>>, <<>>, <<"c2">>),
      BlockI("blk", <<"x", "y">>, <<AttrI("a", "obj", <<>>, ""), BlockI("in", <<>>, <<AttrI("z", "one", <<>>, "")>>, <<>>)>>, <<>>) >>,
   <<>>,
-  << AttrI("n", "call", <<"c1", "c2">>, "c3") >>,
+  << AttrI("n", "call", <<"c1", "c2">>, "c3"), AttrI("h", "here2", <<>>, ""), BlockI("blk", <<>>, <<AttrI("h", "here3", <<"c2">>, "")>>, <<>>) >>,
   << BlockI("blk", <<>>, <<>>, <<>>), AttrI("a", "cond", <<>>, ""), NoteI("c3"), AttrI("b", "trav", <<>>, "") >>,
   << NoteI("c2"), NoteI("c1"), BlockI("srv", <<"y">>, <<NoteI("c1"), AttrI("n", "list", <<>>, "c1"), NoteI("c2")>>, <<"c1", "c1">>) >> >>
 Init == \E i \in 1..Len(Docs) : doc = Docs[i] /\ hist = <<[op |-> "Load", doc |-> Docs[i], i |-> i]>>
